@@ -26,18 +26,26 @@ Proof.
   rewrite andb_true_iff, !nat_list_eqb_eq. split; [intros [-> ->]; reflexivity|intros H; inversion H; auto].
 Qed.
 
+Lemma tlookup_some {A} (f g : A -> list nat) c (l : list A) a :
+  tlookup c (map (fun x => (f x, g x)) l) = Some a -> exists x, In x l /\ f x = c /\ g x = a.
+Proof.
+  induction l as [|x l IH]; simpl; [discriminate|]. destruct (nat_list_eqb (f x) c) eqn:E.
+  - intros H. inversion H; subst. apply nat_list_eqb_eq in E. exists x. auto.
+  - intros H. destruct (IH H) as (y & Hy & Y). exists y. split; [right; exact Hy|exact Y].
+Qed.
+
 Lemma overlap_ok_b_sound (t u : pt) cs : overlap_ok_b t u cs = true -> overlap_ok xval t u cs.
 Proof.
   unfold overlap_ok_b. intros H. apply andb_true_iff in H. destruct H as [H H3]. apply andb_true_iff in H. destruct H as [H1 H2].
   split; [apply nodup_tuples_NoDup; exact H1|]. split.
-  - intros cc Hcc. rewrite forallb_forall in H2. specialize (H2 cc Hcc). apply existsb_exists in H2.
-    destruct H2 as (pi & Hpi & H2). apply andb_true_iff in H2. destruct H2 as [E1 H2]. apply existsb_exists in H2.
-    destruct H2 as (pj & Hpj & H2). apply andb_true_iff in H2. destruct H2 as [E2 H2].
-    apply nat_list_eqb_eq in E1, E2. unfold coincide_b in H2. apply nat_list_eqb_eq in H2.
-    exists pi, pj. repeat split; auto.
-  - intros pi pj Hpi Hpj E. rewrite forallb_forall in H3. specialize (H3 pi Hpi). rewrite forallb_forall in H3.
-    specialize (H3 pj Hpj). apply orb_true_iff in H3. destruct H3 as [H3|H3].
-    + apply negb_true_iff in H3. unfold coincide_b in H3.
+  - intros cc Hcc. rewrite forallb_forall in H2. specialize (H2 cc Hcc). unfold cell_table in H2.
+    destruct (tlookup (fst cc) _) as [a|] eqn:Ea; [|discriminate]. destruct (tlookup (snd cc) _) as [b|] eqn:Eb; [|discriminate].
+    apply tlookup_some in Ea, Eb. destruct Ea as (pi & Hpi & Fa & Ga), Eb as (pj & Hpj & Fb & Gb).
+    apply nat_list_eqb_eq in H2. exists pi, pj. unfold cell_of. repeat split; auto. congruence.
+  - intros pi pj Hpi Hpj E. unfold cell_table in H3. rewrite forallb_map', forallb_forall in H3. specialize (H3 pi Hpi).
+    rewrite forallb_map', forallb_forall in H3. specialize (H3 pj Hpj). cbn [fst snd] in H3.
+    apply orb_true_iff in H3. destruct H3 as [H3|H3].
+    + apply negb_true_iff in H3.
       assert (nat_list_eqb (evals (env_of pi) (vaxes t)) (evals (env_of pj) (vaxes u)) = true); [|congruence].
       apply nat_list_eqb_eq. exact E.
     + apply (memb_In _ pair_eqb_eq) in H3. exact H3.
